@@ -96,6 +96,7 @@ def opOf (j : Json) : Except String SOp := do
   | "set" => pure (.h (.set k v))
   | "add" => pure (.h (.add k v))
   | "del" => pure (.h (.del k))
+  | "nil" => pure (.h (.unset k))   -- `w.Header()[CanonicalHeaderKey(k)] = nil`
   | "wh" => pure (.wh ((j.getObjValAs? Nat "code").toOption.getD 0))
   | "fl" => pure .fl
   | "rc" => pure .fl   -- `http.NewResponseController(w).Flush()`: same capability question, asked the way ReverseProxy asks it
